@@ -510,6 +510,47 @@ func SetHashKeyOrder(hash *SexpHash, keyOrd Sexp) error {
 	return nil
 }
 
+// bucketsInKeyOrder lists the entries of the hash one per bucket, in key
+// order, for the walks whose outcome depends on the order of the visit (the
+// conversions to Go report the first field they cannot place): ranging over
+// the Go map gave a different order, and a different error, on every run.
+func (hash *SexpHash) bucketsInKeyOrder() [][]*SexpPair {
+	out := make([][]*SexpPair, 0, len(hash.KeyOrder))
+	seen := make(map[*SexpPair]bool)
+	for _, key := range hash.KeyOrder {
+		code, err := HashExpression(nil, key)
+		if err != nil {
+			continue
+		}
+		for _, pair := range hash.Map[code] {
+			if seen[pair] {
+				continue
+			}
+			if res, err := hash.Env.Compare(pair.Head, key); err == nil && res == 0 {
+				seen[pair] = true
+				out = append(out, []*SexpPair{pair})
+				break
+			}
+		}
+	}
+	if len(seen) < hash.NumKeys {
+		// entries the key order does not list: by hash code
+		codes := make([]int, 0, len(hash.Map))
+		for code := range hash.Map {
+			codes = append(codes, code)
+		}
+		sort.Ints(codes)
+		for _, code := range codes {
+			for _, pair := range hash.Map[code] {
+				if !seen[pair] {
+					out = append(out, []*SexpPair{pair})
+				}
+			}
+		}
+	}
+	return out
+}
+
 func (hash *SexpHash) HashPairi(pos int) (*SexpPair, error) {
 	nk := hash.NumKeys
 	if pos > nk {
